@@ -118,6 +118,20 @@ pub fn check_explicit(ctx: &mut Ctx, p: &Program, src: &str) {
             viol(ctx, &format!("explicit-program-crashes@{}", crate::fw::panic_site(m)), &format!("{stage} panicked on a fully annotated well-typed program: {m}"), src);
             return;
         }
+        Front::ParseErr(m) if !m.is_empty() && m.iter().all(|x| x.contains("will not be available in time")) => {
+            // The generator places every reference under the definition-order rule (a computed
+            // definition mentions earlier definitions and later function definitions only, see
+            // gen_prog.rs) and the reference interpreter runs such programs without ever needing
+            // a definition that is not available: a definition-order diagnostic on a generated,
+            // unedited program is a false rejection of a well-typed fully annotated program.
+            let runs = crate::typed::ref_run(&p.h, 3_000).is_some_and(|rr| !matches!(rr.outcome, Err(crate::reval::Stop::NotAvailable(_))));
+            if runs {
+                viol(ctx, "rejects-explicit-well-typed:definition-order", &format!("a fully annotated well-typed program is turned away by the definition-order check although no definition is needed before it is available: {}", clip(&m.join(" | "), 600)), src);
+            } else {
+                ctx.inconclusive("generator-violates-definition-order");
+            }
+            return;
+        }
         Front::TokenizeErr(m) | Front::ParseErr(m) => {
             // printer/grammar trouble is not this property's subject
             ctx.inconclusive("printed-program-rejected-syntactically");
